@@ -974,3 +974,16 @@ PLAN['C06']['stages'] = (lambda f: (lambda tier, seed: f(tier, seed) + [lift_und
 PLAN['C06']['rule'] += (' Stage lift_undo: block/undo behaviours replayed on lifted forests (spec/Lift.tla): a partial map forest created from '
                         'the bare roots of trees holding 2^31 .. 2^62 leaves applies and undoes the blocks with shifted targets; roots, '
                         'positions and proofs must be the shifted expectations.')
+
+
+# --------------------------------------------------------------------------- light client from every state with 7 leaves (any live set)
+def light_sparse(tier, acts):
+    u = 1 if 'undoblock' in acts else 0
+    q = tier == 'quick'
+    return light('light_wide7', acts, 8 if q else 9, 2, stack=1, und=u, minn=7, initdead=9, initheld=2, timeout=900 if q else 7200)
+
+
+for _p, _acts in (('C07', ['block']), ('C08', ['block', 'undoblock'])):
+    PLAN[_p]['stages'] = (lambda f, a: (lambda tier, seed: f(tier, seed) + [light_sparse(tier, a)]))(PLAN[_p]['stages'], _acts)
+    PLAN[_p]['rule'] += (' Stage light_wide7: wide configuration with every state of 7 (thorough: 7-8) leaves - any live set, at most two held '
+                         'leaves - as initial state (several empty roots at once, which the dense wide configuration does not have).')
